@@ -15,8 +15,8 @@ class C14(DevProp):
     mis_term = "c14_mismatch k"
     nontrivial_term = "c14_fired k"
     soak = True
-    monitor_name = "C14 monitor (signal iff press completing the sequence; completing press silent and state-neutral)"
-    correspondence_name = "C14 view (per-event termination-signal count of model vs implementation)"
+    monitor_name = "C14 monitor (signal iff press completing the sequence; completing press silent and state-neutral; a swallowed press leaves no trace in State() later)"
+    correspondence_name = "C14 view (per-event termination-signal count, State() after every event and the Note-On of note-key presses: model vs implementation)"
     rule = ("exit sequences of length 0-3 drawn from note keys, action keys and unmapped keys; disturbances with the sequence partly held "
             "(a tap of every action key, keys congruent modulo 64/128/32, autorepeat events, an up/down chord) before the completing press; every press order of the sequence keys "
             "(exhaustive for length <= 3) with releases/re-presses and other keys interleaved, plus random alternating histories; "
@@ -102,6 +102,34 @@ class C14(DevProp):
             for _ in range(2 if tier == "quick" else 6):
                 cases.append({"cfg": cfg, "abs": [], "events": devgen.gen_history(rng, cfg, rng.randint(20, 70), avoid_exit=False, p_action=0.4),
                               "tag": "random"})
+        # "swallowed" means NO trace: the completing key is one half of an up/down pair and stays down after the signal; another
+        # sequence key is released, then the partner, a third action and notes are pressed - the device must behave as if the
+        # swallowed press had never reached the action dispatch (no pair reset, the partner steps normally)
+        for cmode in devgen.CMODES[:2]:
+            for (u, d) in [("octave_up", "octave_down"), ("semitone_up", "semitone_down"), ("channel_up", "channel_down"), ("mapping_up", "mapping_down")]:
+                for comp, partner in ((u, d), (d, u)):
+                    A, N1, N2 = 30, 16, 17
+                    code = {"octave_up": 59, "octave_down": 60, "semitone_up": 61, "semitone_down": 62, "channel_up": 63, "channel_down": 64,
+                            "mapping_up": 65, "mapping_down": 66}
+                    midi = [{"sub": "", "code": N1, "note": 60, "off": 0}, {"sub": "", "code": N2, "note": 64, "off": 1}]
+                    cfg = {"mappings": [{"name": "M0", "midi": midi, "analog": [], "dz": [], "defdz": [], "subs": []},
+                                        {"name": "M1", "midi": midi[:1], "analog": [], "dz": [], "defdz": [], "subs": []},
+                                        {"name": "M2", "midi": midi, "analog": [], "dz": [], "defdz": [], "subs": []}],
+                           "actions": [{"code": c, "action": a} for a, c in code.items()] + [{"code": 67, "action": "panic"}],
+                           "exitseq": [A, code[comp]], "cmode": cmode, "octave": 2, "semitone": -3, "channel": 5, "mapping": 1, "velocity": 64}
+                    tapn = [k(N1, 1), k(N1, 0)]
+                    for variant in range(3):
+                        ev = [k(A, 1), k(code[comp], 1)]                       # fires; the completing press is swallowed
+                        ev += [k(A, 0)] + tapn
+                        if variant == 0:
+                            ev += [k(code[partner], 1)] + tapn + [k(code[partner], 0)]          # must be a single step, not a reset
+                        elif variant == 1:
+                            ev += [k(67, 1), k(67, 0), k(code[partner], 1), k(code[partner], 0)] + tapn
+                        else:
+                            third = code["semitone_up" if u != "semitone_up" else "octave_up"]
+                            ev += [k(third, 1)] + tapn + [k(third, 0), k(code[partner], 1)] + tapn + [k(code[partner], 0)]
+                        ev += [k(code[comp], 0)] + tapn + [k(code[comp], 1), k(code[comp], 0)] + tapn
+                        cases.append({"cfg": cfg, "abs": [], "events": ev, "tag": "after-fire"})
         return cases
 
     def exit_config(self, rng, L):
